@@ -356,6 +356,31 @@ func init() {
 			} {
 				add(eCase{Kind: kind, Policy: "error", Docs: docs, Queries: []eQuery{{}, {A: []eAssign{{F: 0, V: tvInt("int", 1)}}}, {A: []eAssign{{F: 0, V: tvInt("int", 2)}, {F: 5, V: tvStr("x")}}}}})
 			}
+			// the same answers when the builder has a cache provider: conjunctions mixing an expression long enough to be
+			// cached with short ones (include and exclude, one and several fields), on cold and warm builds
+			{
+				ints := func(k, off int) TV {
+					l := make([]TV, k)
+					for i := range l {
+						l[i] = tvInt("int", int64(off+i))
+					}
+					return tvSlice("[]int", l...)
+				}
+				c := eCase{Kind: kind, Policy: "error"}
+				c.Docs = []eDoc{
+					{ID: 1, Cons: []eConj{{{F: 0, Inc: true, V: ints(6, 0)}, {F: 1, Inc: true, V: tvStr("sh")}}}},
+					{ID: 2, Cons: []eConj{{{F: 0, Inc: true, V: ints(6, 3)}, {F: 1, Inc: false, V: tvStr("bj")}}}},
+					{ID: 3, Cons: []eConj{{{F: 0, Inc: true, V: ints(2, 7)}}, {{F: 2, Inc: true, V: ints(5, 0)}, {F: 0, Inc: true, V: ints(1, 7)}, {F: 1, Inc: true, V: tvSlice("[]string", tvStr("sh"), tvStr("gz"))}}}},
+					{ID: -4, Cons: []eConj{{{F: 0, Inc: false, V: ints(5, 0)}, {F: 1, Inc: false, V: tvStr("sh")}}}},
+				}
+				for _, a := range []int64{0, 4, 7, 8, 9} {
+					for _, city := range []string{"sh", "bj", "gz"} {
+						c.Queries = append(c.Queries, eQuery{A: []eAssign{{F: 0, V: tvInt("int", a)}, {F: 1, V: tvStr(city)}}}, eQuery{A: []eAssign{{F: 0, V: tvInt("int", a)}, {F: 1, V: tvStr(city)}, {F: 2, V: tvInt("int", 2)}}})
+					}
+				}
+				add(cacheIn{Cache: true, Case: c, Thr: 2, Seed: 81, MissPct: 0, DropPct: 0})
+				add(cacheIn{Cache: true, Case: c, Thr: 2, Seed: 82, MissPct: 30, DropPct: 0, Reuse: true})
+			}
 			// default-container fields only: BuildIndex, then a document introducing a NEW field, then BuildIndex again
 			// without Reset -- the index that is finally built must know the late field
 			add(eCase{Kind: kind, Policy: "error", Rebuild: 1, Docs: []eDoc{
@@ -379,10 +404,23 @@ func init() {
 			}
 		}
 	}
-	props["C01"] = &propDef{header: "From BE Require Import Corr.CheckC01.", rule: e2eRule, shardSize: 25,
-		gen: gen("kgroups", false, false), exec: execE2E}
-	props["C02"] = &propDef{header: "From BE Require Import Corr.CheckC02.", rule: e2eRule + "; compact builder, biased to mixed sizes in one cursor set and early exit", shardSize: 25,
-		gen: gen("compact", false, true), exec: execE2E}
+	cachedToo := map[string]string{"C": "From BE Require Import Corr.CheckCache."}
+	props["C01"] = &propDef{header: "From BE Require Import Corr.CheckC01.", headers: cachedToo, rule: e2eRule, shardSize: 25,
+		gen: gen("kgroups", false, false), exec: execE2EOrCache}
+	props["C02"] = &propDef{header: "From BE Require Import Corr.CheckC02.", rule: e2eRule + "; compact builder, biased to mixed sizes in one cursor set and early exit", shardSize: 25, headers: cachedToo,
+		gen: gen("compact", false, true), exec: execE2EOrCache}
+}
+
+// execE2EOrCache: an end-to-end case, or (input with "cache": true) three builds sharing a cache provider
+func execE2EOrCache(raw json.RawMessage) (execResult, error) {
+	var probe struct {
+		Cache bool `json:"cache"`
+	}
+	json.Unmarshal(raw, &probe)
+	if probe.Cache {
+		return execCache(raw)
+	}
+	return execE2E(raw)
 }
 
 func init() {
@@ -438,29 +476,8 @@ func init() {
 			for i := 0; i < n/2; i++ {
 				add(rangeDocset(r, []string{"kgroups", "compact"}[i%2], i%4 >= 2))
 			}
-			// many intervals over one field, added in an order that splits pieces already holding 1..5 entries, every
-			// later interval landing on one side of an earlier split
-			for _, kind := range []string{"kgroups", "compact"} {
-				for _, k := range []int{1, 2, 3, 4, 5} {
-					c := eCase{Kind: kind, Policy: "error", Configs: map[int]string{2: "ext_range"}}
-					gt := func(id, a int64) eDoc {
-						return eDoc{ID: id, Cons: []eConj{{{F: 0, Inc: true, V: tvStr("nowhere")}}, {{F: 2, Inc: true, Op: 1, V: tvInt("int64", a)}}}}
-					}
-					lt := func(id, b int64) eDoc {
-						return eDoc{ID: id, Cons: []eConj{{{F: 2, Inc: true, Op: 2, V: tvInt("int64", b)}}}}
-					}
-					id := int64(1)
-					for j := 0; j < k; j++ { // k documents covering (0, max): one piece with k entries
-						c.Docs = append(c.Docs, gt(id, 0))
-						id++
-					}
-					c.Docs = append(c.Docs, gt(id, 1000), lt(id+1, 500), gt(id+2, 2000), lt(id+3, 1500), lt(id+4, 5))
-					for _, x := range []int64{-3, 0, 1, 4, 5, 6, 499, 500, 501, 1000, 1001, 1499, 1500, 1501, 2000, 2001, 9000} {
-						c.Queries = append(c.Queries, eQuery{A: []eAssign{{F: 2, V: tvInt("int64", x)}}})
-					}
-					add(c)
-				}
-			}
+			rangeSplitCases(add)
+			acAllMultibyte(add) // collector calls and raw results on a pattern field with multi-byte keywords only
 			// roaring raw result on default-container fields
 			for i := 0; i < n/2; i++ {
 				add(genRrCase(r, 1+r.Intn(4), 0, 0, 8+r.Intn(12), 1+r.Intn(2)))
